@@ -31,6 +31,9 @@ def s1_s2_s3_execute(ctx):
     ps = summarise(ctx, qn, policy=default_policy)
     order = V('order')
     n = 0
+    # a quote remembered on the broker between fills: sound only if filed under everything it depends on - the asset AND the time (the broker's clock moves on)
+    from ..lib import without_sound_memo_hits
+    ps, _quote_memos = without_sound_memo_hits(ctx, 'C05.S1', fn, ps, 'C05.S1|%s' % qn)
     for p in normal(ps):
         cs = [e for e in p.flat_events() if e.kind == 'call' and 'Portfolio.transact_asset' in e.callee]
         if len(cs) != 1:
